@@ -30,7 +30,7 @@ ASSUMPTIONS = [
     "on an exact .5 tie of extent/spacing either neighbouring interval count is accepted",
 ]
 
-STARTS = [-3.0, 0.0, 0.25, 1000.0]
+STARTS = [-3.0, 0.0, 0.25, 1000.0, 7460000.0, -(2.0 ** 30)]   # the last two: offsets 1e6 ... 1e9 times the extent (seed C07-10: relative "zero width" test)
 REGIONS = [
     [0.0, 4.0, 0.0, 3.0],
     [-5.0, 0.0, 5.0, 10.0],
